@@ -73,7 +73,8 @@ pub mod lab {
     pub const ALLOC_FAILURE_SURVIVED: u32 = 56;
     pub const ADDRESS_REUSED: u32 = 57;
     pub const WEAK_BEFORE_ASSUME_INIT: u32 = 58;
-    pub const NAMES: [&str; 59] = [
+    pub const CLONE_VIA_UNINIT_TYPE: u32 = 59;
+    pub const NAMES: [&str; 60] = [
         "group>=2_collected",
         "group>=3_collected",
         "zero_count_death_with_records",
@@ -133,6 +134,7 @@ pub mod lab {
         "injected_allocation_failure_handled_without_abort",
         "object_allocated_at_the_address_of_a_released_object",
         "weak_taken_before_assume_init",
+        "destructor_cloned_through_the_maybeuninit_typed_handle",
     ];
 }
 
